@@ -324,6 +324,7 @@ def _isqrt_frac(fr):
 class _Hooks:
     branch = None        # callable(z3 BoolRef) -> bool
     decide_static = None  # callable(z3 BoolRef) -> True/False/None (under assumptions & PC)
+    pick_int = None       # callable(z3 Int term) -> a feasible python int under assumptions & PC
 
 
 HOOKS = _Hooks()
@@ -407,6 +408,97 @@ class SymBool:
         return self._asq() * o
 
     __rmul__ = __mul__
+
+
+class SymInt:
+    """symbolic integer over Z (windows, ids, thresholds). Comparisons are symbolic; __index__/__int__ concretise by forking
+    over the feasible values (the library's own guards bound them)."""
+    __slots__ = ("z", "name")
+    __array_ufunc__ = None
+
+    def __init__(self, z, name):
+        self.z = z
+        self.name = name
+
+    def _o(self, o):
+        if isinstance(o, SymInt):
+            return o.z
+        if isinstance(o, (int, np.integer)) and not isinstance(o, bool):
+            return z3.IntVal(int(o))
+        return None
+
+    def __lt__(self, o):
+        z = self._o(o)
+        return NotImplemented if z is None else SymBool.mk(self.z < z)
+
+    def __le__(self, o):
+        z = self._o(o)
+        return NotImplemented if z is None else SymBool.mk(self.z <= z)
+
+    def __gt__(self, o):
+        z = self._o(o)
+        return NotImplemented if z is None else SymBool.mk(self.z > z)
+
+    def __ge__(self, o):
+        z = self._o(o)
+        return NotImplemented if z is None else SymBool.mk(self.z >= z)
+
+    def __eq__(self, o):
+        z = self._o(o)
+        if z is None:
+            return False
+        return SymBool.mk(self.z == z)
+
+    def __ne__(self, o):
+        z = self._o(o)
+        if z is None:
+            return True
+        return SymBool.mk(self.z != z)
+
+    def __bool__(self):
+        return bool(SymBool.mk(self.z != 0))
+
+    def concretize(self):
+        while True:
+            v = HOOKS.pick_int(self.z)
+            if HOOKS.branch(self.z == v):
+                return v
+
+    def __index__(self):
+        return self.concretize()
+
+    __int__ = __index__
+
+    def __hash__(self):
+        return hash(self.concretize())
+
+    def _asq(self):
+        return Q(Lin.var("toreal!" + self.name, z3.ToReal(self.z)))
+
+    def __repr__(self):
+        return "SymInt(%s)" % self.name
+
+    def __add__(self, o):
+        return self._asq() + o
+
+    __radd__ = __add__
+
+    def __sub__(self, o):
+        return self._asq() - o
+
+    def __rsub__(self, o):
+        return o - self._asq()
+
+    def __mul__(self, o):
+        return self._asq() * o
+
+    __rmul__ = __mul__
+
+    def __truediv__(self, o):
+        return self._asq() / o
+
+    def __rtruediv__(self, o):
+        return o / self._asq()
 
 
 def sb_expr(o):
